@@ -582,10 +582,10 @@ def _atom_expr(a, x):
         f = u.softplus() if meth else rso.softplus(u)
     elif t == 'entropy':
         f = u.entropy() if meth else rso.entropy(u)
-    elif t == 'sumexp':
-        f = u.exp().sum() if meth else rso.exp(u).sum()
-    elif t == 'sumlog':
-        f = u.log().sum() if meth else rso.log(u).sum()
+    elif t in ('sumexp', 'sumlog'):
+        g = (u.exp() if meth else rso.exp(u)) if t == 'sumexp' else (u.log() if meth else rso.log(u))
+        form = a.get('spell', 0) // 2 % 3       # the same sum written as sum(), sum(axis=0) and sum(axis=-1)
+        f = g.sum() if form == 0 else g.sum(axis=0) if form == 1 else g.sum(axis=-1)
     elif t == 'maxof':
         f = rso.maxof(*[u[i] for i in range(len(a['M']))]) if meth else rso.maxof([u[i] for i in range(len(a['M']))])
     elif t == 'minof':
